@@ -59,8 +59,7 @@ PROP = {
         "lists with two or more interior legal breakpoints (the symbolic path count grows past the budget: measured, DESIGN.md 2.4), lists longer than 4 items, characters/ligatures/discretionaries/math (need a font repository or hyphenation state)",
         "non-zero looseness (TeX.2021.875), several line widths (\\parshape/\\hangindent classes), force_solution = true (final pass), emergency_stretch > 0, double/final hyphen demerits",
         "break_line_all_attempts (pretolerance / tolerance / emergency passes) and post_line_break",
-        "line formation is taken as this implementation builds lines (post_line_break: only the break item itself is dropped). TeX additionally discards the glue/kern/penalty items that *follow* a break (TeX.2021.837/879); "
-        "this tree does not implement that in either place, consistently - recorded in DESIGN.md as an observed deviation from TeX, not as a violation of C04",
+        "shapes in which only discardable items lie between two breakpoints (TeX's break_width then runs past the next break and the line gets a negative natural width): the oracle refuses them",
         "badness for negative shortfall (TeX.2021.108 requires t >= 0; callers pass |shortfall|)",
     ],
     "assumptions": ["badness/demerits are private: the translator is not cross-checked natively for those two obligations; the pass obligations are (32 vectors per shape against the native build, every run)",
